@@ -370,6 +370,12 @@ class HTMLUnicodeInputStream(object):
                 # chunk:
                 self.chunk = char + self.chunk
                 self.chunkSize += 1
+                # The character was already counted in the position of the
+                # end of the previous chunk; don't count it twice
+                if char == "\n":
+                    self.prevNumLines -= 1
+                else:
+                    self.prevNumCols -= 1
             else:
                 self.chunkOffset -= 1
                 assert self.chunk[self.chunkOffset] == char
